@@ -104,4 +104,17 @@ def c07(prop, tier, res, replay=None):
         "consumers: real pull HTTP handler (JSON/base64 decoded by the Lean decoder), real worker gRPC handler, real HTTPDeliverer against an httptest target; memory and SQLite (with restart); one redelivery after nack"], replay)
 
 
-TABLE = {"C07": c07, "C20": c20, "C11": c11, "C06": c06, "C16": c16, "C10": c10, "C08": c08, "C09": c09, "C17": c17}
+RELOAD = dict(sub="reload", mode="reload", family="reload", shards=q(4, 16),
+              args=lambda tier, sd, sh: ["-seed", sd * 1000 + sh, "-cases", 40 if tier == "quick" else 250, "-files", 36 if tier == "quick" else 200, "-crash"],
+              key_fields=["k", "case", "variant", "fail", "point"], class_clauses={"request-straddles-reload"})
+
+
+def c18(prop, tier, res, replay=None):
+    return pure.check_cases(prop, tier, res, [RELOAD], [
+        "the structure of reloadConfig (give-up points, write-lock sections with the fields they assign, accessor read sets, the accessor calls of one ingress request) is REGENERATED from internal/app/run.go and internal/ingress/http.go by go/ast on every run; the theorems are re-checked over it. The extractor recognises X.mu.Lock()/Unlock() sections, assignments X.f = ..., inlined runtimeState methods and the closure returned by one; other ways to publish state (atomics, channels) would not be seen",
+        "behaviour is compared through a fixed probe set (ingress requests with every credential/body-size/method variant either configuration mentions, pull and worker authorisation per endpoint and token, admin token, publish per route) evaluated on the real handlers wired to the real runtime state; observation instants inside a reload are the verifhook points after each write section; rate limiters use a refill of 1 token / 10000 s and are drained, so answers do not depend on wall time; HMAC probes use real time and fresh nonces",
+        "schedules: a request is held between two accessor calls by interposing on ingress.Server's accessor fields while a complete reload runs (every ingress probe x six gates); free-running goroutine interleavings are not explored",
+        "file replacement: the directory is read at every verifhook point of writeFileAtomic (app and MCP copies), and child processes are SIGKILLed at each point; this shows process-crash atomicity (rename(2) on one filesystem) - behaviour on power loss (fsync durability) is the OS's and is not observable here"], replay)
+
+
+TABLE = {"C18": c18, "C07": c07, "C20": c20, "C11": c11, "C06": c06, "C16": c16, "C10": c10, "C08": c08, "C09": c09, "C17": c17}
